@@ -427,6 +427,20 @@ def unionExampleDoc (u : CUnion) (ex : List (String × ExVal)) : Option JVal :=
         | some j => some (.obj [(".tag", .str tag), (tag, j)])
   | _ => none
 
+/-- `Union._add_example` followed by `Union._compute_example` for one raw example: the computed document
+(`none` when it follows references). A `null` written for a nullable member that is a plain struct passes the
+check and then crashes the computation (`ex_val.update(None)`: TypeError, a known crash site). -/
+def unionExample (E : Ext) (C : CExt) (us : List CUnion) (u : CUnion) (ex : List (String × ExVal)) : CR (Option JVal) :=
+  match addUnionExample E C us u ex with
+  | .error e => .error e
+  | .ok _ => match ex with
+    | [(tag, v)] => match u.allTags.find? (·.name == tag) with
+      | some t => match unwrapNullable t.ty with
+        | .struct _ false => if isNullEx v then ccrash "TypeError" else .ok (unionExampleDoc u ex)
+        | _ => .ok (unionExampleDoc u ex)
+      | none => .ok none
+    | _ => .ok none
+
 /-! ## the class tables of the generated module -/
 
 def fieldDefOfC (us : List CUnion) (f : CField) : Option FieldDef := do
